@@ -597,6 +597,7 @@ pub fn on_callback(uid: Uid, ev: Ev) -> CbRet {
         let in_dispatch = w.in_dispatch;
         let s = &mut w.srcs[uid];
         s.cbs_in_dispatch += 1;
+        s.cause_from_cb = false;
         s.last_cb_dispatch = d;
         s.enabled_since_cb = false;
         let k = s.cb_count;
